@@ -8,6 +8,9 @@ func init() {
 		}
 		return Scenario{Name: "C05/bfs-" + cfg, Build: sched, Pkg: "internal", Test: "TestVerif_C05", Params: p, Shards: shards, BudgetS: budget}
 	}
+	icb := func(driver string, shards int, p string, budget float64) Scenario {
+		return Scenario{Name: "C05/icb-" + driver, Build: schedCoarse, Pkg: "internal", Test: "TestVerif_C05Icb", Params: "driver=" + driver + ",P=" + p, Shards: shards, BudgetS: budget}
+	}
 	register(&Check{
 		ID: "C05", Level: "model_checking", Engine: "E2-BFS", DesignRef: "DESIGN.md §4 C05, §3.3",
 		Technique: "explicit-state breadth-first search over delete/evict/expire overlaps on the real instrumented Store (big steps) with a recording removal listener; notification accounting checked after draining every reachable state",
@@ -17,9 +20,11 @@ func init() {
 		Assume:    []string{"a big step runs one thread alone between two named stopping points", "values are unique per Set so a notification identifies its incarnation"},
 		Quick: []Scenario{
 			mk("m1", 8, "12", 60), mk("m1-ttl", 16, "9", 60), mk("m2-3c", 16, "9", 60), mk("m1-pool", 8, "12", 60), mk("m1-pool-ttl", 8, "9", 60),
+			icb("del-vs-evict", 8, "2", 60), icb("del-vs-expire", 8, "2", 60), icb("del-vs-evict-pool", 8, "2", 60),
 		},
 		Thorough: []Scenario{
 			mk("m1", 16, "14", 600), mk("m1-ttl", 16, "11", 600), mk("m2-3c", 16, "11", 600), mk("m1-pool", 16, "14", 600), mk("m1-pool-ttl", 16, "11", 600),
+			icb("del-vs-evict", 16, "3", 900), icb("del-vs-expire", 16, "3", 900), icb("del-vs-evict-pool", 16, "3", 900),
 		},
 	})
 }
